@@ -3,6 +3,7 @@
 package fuzzer
 
 import (
+	"github.com/smarthome-go/homescript/v3/homescript/analyzer/ast"
 	pAst "github.com/smarthome-go/homescript/v3/homescript/parser/ast"
 )
 
@@ -121,4 +122,81 @@ func lemmaLiteralRoundTrip(op pAst.InfixOperator, n int64, c int64) {}
     assume-safety
     assumepre Expression, infixExpr
     assert @literal-inverse-table before-each Operator:   inverseOperators[idx], :: inverseOperators[idx] == VInverseOp(operators[idx]) && (operators[idx] == pAst.PlusInfixOperator || operators[idx] == pAst.MinusInfixOperator || operators[idx] == pAst.MultiplyInfixOperator) && (uselessValue == 42 || uselessValue == 69 || uselessValue == 4711)
+@*/
+
+// ---------------------------------------------------------------------------
+// Which nodes may end or restart the enclosing loop: the loop obfuscations are
+// applied only to nodes for which the answer is no, so a wrong "no" changes
+// where a `break`/`continue` lands. The three mutually recursive functions
+// are specified inductively: break/continue say yes; a composite node says yes
+// exactly when one of the children that are evaluated in the enclosing loop's
+// context does (every child, including the default arm of a match; not the
+// body of a nested loop or of a function literal).
+
+/*@ assume-pure analyzer/ast.AnalyzedStatement.Kind @*/
+
+// stmtWF: the mandatory children of a statement node are present (the return
+// value of `return` is optional).
+func stmtWF(node ast.AnalyzedStatement) bool {
+	if node == nil {
+		return false
+	}
+	switch n := node.(type) {
+	case ast.AnalyzedLetStatement:
+		return n.Expression != nil
+	case ast.AnalyzedWhileStatement:
+		return n.Condition != nil
+	case ast.AnalyzedExpressionStatement:
+		return n.Expression != nil
+	}
+	return true
+}
+
+/*@ func (self *Transformer) exprCanControlLoop
+    serves C20
+    functional
+    assume-safety
+    assumepre exprCanControlLoop, blockCanControlLoop
+    requires node != nil
+    ensures @leaves (node.Kind() == ast.IntLiteralExpressionKind || node.Kind() == ast.FloatLiteralExpressionKind || node.Kind() == ast.BoolLiteralExpressionKind || node.Kind() == ast.StringLiteralExpressionKind || node.Kind() == ast.IdentExpressionKind || node.Kind() == ast.NullLiteralExpressionKind || node.Kind() == ast.NoneLiteralExpressionKind || node.Kind() == ast.FunctionLiteralExpressionKind) ==> !result
+    ensures @grouped node.Kind() == ast.GroupedExpressionKind ==> result == self.exprCanControlLoop(node.(ast.AnalyzedGroupedExpression).Inner)
+    ensures @prefix node.Kind() == ast.PrefixExpressionKind ==> result == self.exprCanControlLoop(node.(ast.AnalyzedPrefixExpression).Base)
+    ensures @infix node.Kind() == ast.InfixExpressionKind ==> result == (self.exprCanControlLoop(node.(ast.AnalyzedInfixExpression).Lhs) || self.exprCanControlLoop(node.(ast.AnalyzedInfixExpression).Rhs))
+    ensures @assign node.Kind() == ast.AssignExpressionKind ==> result == (self.exprCanControlLoop(node.(ast.AnalyzedAssignExpression).Lhs) || self.exprCanControlLoop(node.(ast.AnalyzedAssignExpression).Rhs))
+    ensures @index node.Kind() == ast.IndexExpressionKind ==> result == (self.exprCanControlLoop(node.(ast.AnalyzedIndexExpression).Base) || self.exprCanControlLoop(node.(ast.AnalyzedIndexExpression).Index))
+    ensures @member node.Kind() == ast.MemberExpressionKind ==> result == self.exprCanControlLoop(node.(ast.AnalyzedMemberExpression).Base)
+    ensures @cast node.Kind() == ast.CastExpressionKind ==> result == self.exprCanControlLoop(node.(ast.AnalyzedCastExpression).Base)
+    ensures @block node.Kind() == ast.BlockExpressionKind ==> result == self.blockCanControlLoop(node.(ast.AnalyzedBlockExpression).Block)
+    ensures @if node.Kind() == ast.IfExpressionKind ==> result == (self.exprCanControlLoop(node.(ast.AnalyzedIfExpression).Condition) || self.blockCanControlLoop(node.(ast.AnalyzedIfExpression).ThenBlock) || (node.(ast.AnalyzedIfExpression).ElseBlock != nil && self.blockCanControlLoop(*node.(ast.AnalyzedIfExpression).ElseBlock)))
+    ensures @try node.Kind() == ast.TryExpressionKind ==> result == (self.blockCanControlLoop(node.(ast.AnalyzedTryExpression).TryBlock) || self.blockCanControlLoop(node.(ast.AnalyzedTryExpression).CatchBlock))
+    ensures @match-no !result && node.Kind() == ast.MatchExpressionKind ==> !self.exprCanControlLoop(node.(ast.AnalyzedMatchExpression).ControlExpression) && (node.(ast.AnalyzedMatchExpression).DefaultArmAction == nil || !self.exprCanControlLoop(*node.(ast.AnalyzedMatchExpression).DefaultArmAction)) && forall i in 0..len(node.(ast.AnalyzedMatchExpression).Arms) :: !self.exprCanControlLoop(node.(ast.AnalyzedMatchExpression).Arms[i].Action)
+    ensures @list-no !result && node.Kind() == ast.ListLiteralExpressionKind ==> forall i in 0..len(node.(ast.AnalyzedListLiteralExpression).Values) :: !self.exprCanControlLoop(node.(ast.AnalyzedListLiteralExpression).Values[i])
+    ensures @object-no !result && node.Kind() == ast.ObjectLiteralExpressionKind ==> forall i in 0..len(node.(ast.AnalyzedObjectLiteralExpression).Fields) :: !self.exprCanControlLoop(node.(ast.AnalyzedObjectLiteralExpression).Fields[i].Expression)
+    ensures @call-no !result && node.Kind() == ast.CallExpressionKind ==> !self.exprCanControlLoop(node.(ast.AnalyzedCallExpression).Base) && forall i in 0..len(node.(ast.AnalyzedCallExpression).Arguments.List) :: !self.exprCanControlLoop(node.(ast.AnalyzedCallExpression).Arguments.List[i].Expression)
+    loop 1 invariant forall j in 0..rangeindex() :: !self.exprCanControlLoop(node.Values[j])
+    loop 2 invariant forall j in 0..rangeindex() :: !self.exprCanControlLoop(node.Fields[j].Expression)
+    loop 3 invariant forall j in 0..rangeindex() :: !self.exprCanControlLoop(node.Arguments.List[j].Expression)
+    loop 4 invariant forall j in 0..rangeindex() :: !self.exprCanControlLoop(node.Arms[j].Action)
+@*/
+
+/*@ func (self *Transformer) blockCanControlLoop
+    serves C20
+    functional
+    assume-safety
+    assumepre exprCanControlLoop, stmtCanControlLoop
+    ensures @block-no !result ==> (node.Expression == nil || !self.exprCanControlLoop(node.Expression)) && forall i in 0..len(node.Statements) :: !self.stmtCanControlLoop(node.Statements[i])
+    loop 1 invariant forall j in 0..rangeindex() :: !self.stmtCanControlLoop(node.Statements[j])
+@*/
+
+/*@ func (self *Transformer) stmtCanControlLoop
+    serves C20
+    functional
+    assume-safety
+    requires stmtWF(node)
+    ensures @break-continue (node.Kind() == ast.BreakStatementKind || node.Kind() == ast.ContinueStatementKind) ==> result
+    ensures @nested-loops (node.Kind() == ast.LoopStatementKind || node.Kind() == ast.ForStatementKind || node.Kind() == ast.TypeDefinitionStatementKind) ==> !result
+    ensures @let node.Kind() == ast.LetStatementKind ==> result == self.exprCanControlLoop(node.(ast.AnalyzedLetStatement).Expression)
+    ensures @expression node.Kind() == ast.ExpressionStatementKind ==> result == self.exprCanControlLoop(node.(ast.AnalyzedExpressionStatement).Expression)
+    ensures @while-condition node.Kind() == ast.WhileStatementKind ==> result == self.exprCanControlLoop(node.(ast.AnalyzedWhileStatement).Condition)
+    ensures @return-value node.Kind() == ast.ReturnStatementKind && node.(ast.AnalyzedReturnStatement).ReturnValue != nil ==> result == self.exprCanControlLoop(node.(ast.AnalyzedReturnStatement).ReturnValue)
 @*/
